@@ -454,6 +454,9 @@ static void run_case(void) {
     }
     mon_fp(order_hash);
     mon_fp(perturb_signature());
+    mon_distinct("interleaving_signatures", perturb_signature());
+    mon_distinct("thread_completion_orders", order_hash);
+
     mon_count("scenarios", 1);
     mon_count("threads_launched", (uint64_t)S.n);
     mon_count("managed_threads_finished_after_join_all_was_called", (uint64_t)unfinished_at_joinall);
